@@ -126,7 +126,8 @@ pub fn decode_script(data: &[u8]) -> crate::script::ScriptSpec {
             },
             25 => Step::BuildCancelled { ix, k: b.u8() as u64 % 40, rng_seed: b.u16() as u64 },
             26..=28 => Step::ChangeMetric { ix, to: b.pick(&ALL_METRICS) },
-            29 | 30 => Step::Commit,
+            29 => Step::BuildAs { ix, rng_seed: b.u16() as u64 },
+            30 => Step::Commit,
             _ => Step::Abort,
         });
     }
